@@ -130,6 +130,9 @@ def gen_contain(rng):
     through a symlink"""
     inside_ok = "pc\n"
     entries = [("f", "outside/secret.etk", b"push4 0xdeadbeef\n"), ("f", "outside/secret.hex", b"63deadbeef"),
+               # siblings whose NAME extends the root directory's name (component-wise vs. textual prefix)
+               ("f", "proj-private/secret.etk", b"push4 0xdeadbeef\n"), ("f", "proj2/secret.hex", b"63deadbeef"),
+               ("l", "proj/sib_link.etk", "../proj-private/secret.etk"),
                ("f", "proj/lib/ok.etk", inside_ok.encode()), ("f", "proj/lib/ok.hex", b"58"),
                ("f", "proj/lib/deep/x.etk", b'%import("../ok.etk")\n'),
                ("l", "proj/lib/link_in.etk", "ok.etk"), ("l", "proj/link_out.etk", "../outside/secret.etk"),
@@ -140,8 +143,10 @@ def gen_contain(rng):
     targets = ["lib/ok.etk", "lib/link_in.etk", "dirlink_in/ok.etk", "lib/deep/x.etk", "lib/../lib/ok.etk",
                "link_out.etk", "dirlink_out/secret.etk", "abs_out.etk", "lib/up.etk", "../outside/secret.etk",
                "lib/../../outside/secret.etk", "@T@/outside/secret.etk", "@T@/proj/lib/ok.etk", "lib/esc.etk",
-               "missing.etk", "loop", "lib", "../proj/lib/ok.etk", "dirlink_in/../../outside/secret.etk"]
-    hex_targets = ["lib/ok.hex", "../outside/secret.hex", "dirlink_out/secret.hex", "@T@/outside/secret.hex", "dirlink_in/ok.hex"]
+               "missing.etk", "loop", "lib", "../proj/lib/ok.etk", "dirlink_in/../../outside/secret.etk",
+               "../proj-private/secret.etk", "@T@/proj-private/secret.etk", "sib_link.etk", "lib/../../proj-private/secret.etk"]
+    hex_targets = ["lib/ok.hex", "../outside/secret.hex", "dirlink_out/secret.hex", "@T@/outside/secret.hex", "dirlink_in/ok.hex",
+                   "../proj2/secret.hex", "@T@/proj2/secret.hex"]
     lines = []
     for _ in range(rng.randrange(1, 4)):
         r = rng.random()
@@ -182,7 +187,8 @@ def outside_targets(case):
             p = os.path.join(base, e[1])
             os.makedirs(os.path.dirname(p), exist_ok=True)
             if e[0] == "f":
-                open(p, "wb").write(e[2].replace(b"@T@", base.encode()))
+                content = bytes.fromhex(e[2]) if isinstance(e[2], str) else e[2]
+                open(p, "wb").write(content.replace(b"@T@", base.encode()))
             elif e[0] == "d":
                 os.makedirs(p, exist_ok=True)
             else:
